@@ -614,6 +614,7 @@ class FuncEmitter:
         if '@llvm.experimental.noalias.scope.decl' in s or '@llvm.dbg.' in s or '@llvm.lifetime.' in s:
             return
         s = re.sub(r', !(noalias|alias\.scope|tbaa|llvm\.loop|nonnull|range|noundef|align|dereferenceable)\b[^,]*', '', s)
+        s = re.sub(r'(, ![A-Za-z_.]+ ![0-9]+)+\s*$', '', s)     # trailing instruction metadata (!nosanitize, !srcloc, ...) carries no semantics
         tk = Toks(tokenize(s), s)
         dst = None
         if tk.peek()[0] == 'id' and tk.peek(1)[1] == '=':
